@@ -527,7 +527,8 @@ def index (d : Dump) : Result :=
     N  = `-`/`.` | `id:name,..`   name = `!` unreadable | ASCII token | `x<hex of UTF-16 code units>`
     B  = `-` | `validity:dump:req`
     E  = `-` | `x` (unreadable stream) | `tid:code:flags:addr:np:p0:p1:p2:ctx`
-    M  = `-` | `x` | `flags:pid:ctime:version`
+    M  = `-` | `x` | `flags:pid:ctime:version[:size_of_info]`   (the 5th item: what the stream's own
+         size field says when that is not the struct's size — untrusted, not consulted)
     S  = `-` | `.` | `Key~value,..`
     L  = `.` | `base:size:name,..`          (name as above)
     R  = pool of memory regions `base/size[/off.hexbytes]*,..` (zero-filled, then patched)
@@ -703,6 +704,9 @@ def misc (s : String) : Option (Option Misc) :=
   if s == "-" || s == "x" then some none else
   match (s.splitOn ":").map optNat with
   | [some f, some p, some c, some _ver] => some (some ⟨f, p, c⟩)
+  -- the stream's own `size_of_info` field when it is not the struct's size: not consulted by
+  -- `MinidumpMiscInfo::read` (the stream length selects the revision), so not by the model either
+  | [some f, some p, some c, some _ver, some soi] => if soi ≤ U32MAX then some (some ⟨f, p, c⟩) else none
   | _ => none
 
 structure MemLists where
